@@ -1270,6 +1270,17 @@ impl Compiler {
             // position of the instruction that comes after the 'then' statement
             self.patch_jump(jump_if_false_pos);
         }
+        // A filter runs outside of any function call, so it cannot capture the
+        // locals of a function it is written in
+        if let Some(free) = self.symtab.free_symbols.first() {
+            return Err(CompileError::new(
+                &format!(
+                    "filter statement cannot use the local variable '{}' of an enclosing function",
+                    free.name
+                ),
+                expr.token.line,
+            ));
+        }
         // Get the number of locals and create the function
         let num_locals = self.symtab.get_num_definitions();
         let instructions = self.leave_scope();
